@@ -1,2 +1,224 @@
-(* ChunkedProofs: lemmas for C16 (in progress) *)
-From Coq Require Import List.
+(* ChunkedProofs: lemmas about the chunked-transfer decoder model (C16). *)
+From Coq Require Import List Arith Lia Bool NArith ZArith.
+From NngV Require Import Base.ListX Base.Bytes Codec.ChunkedModel Codec.CodecSpec.
+Import ListNotations.
+Local Open Scope N_scope.
+
+Ltac Zify.zify_post_hook ::= Z.div_mod_to_equations.
+
+Ltac split_ifs :=
+  repeat match goal with
+         | |- context [if ?c then _ else _] => destruct c eqn:?
+         end.
+
+(* ---- return codes: never EAGAIN from a single step ---- *)
+Definition rv_final (rv : N) : Prop := rv = 0 \/ rv = NNG_ENOMEM \/ rv = NNG_EPROTO \/ rv = NNG_EMSGSIZE.
+
+Lemma ingest_char_rv cl c : rv_final (snd (ingest_char cl c)).
+Proof.
+  unfold rv_final, ingest_char, ingest_len, ingest_ext, ingest_newline, ingest_trailer, ingest_trailercr.
+  destruct (cl_state cl); split_ifs; cbn [snd]; auto.
+Qed.
+
+Lemma ingest_data_rv cl buf : rv_final (snd (fst (ingest_data cl buf))).
+Proof.
+  unfold rv_final, ingest_data. destruct (rev (cl_chunks cl)); split_ifs; cbn [fst snd]; auto.
+Qed.
+
+Lemma cstep_rv cl c : rv_final (snd (fst (cstep cl c))).
+Proof.
+  unfold cstep. destruct (is_data cl).
+  - pose proof (ingest_data_rv cl [c]) as H. destruct (ingest_data cl [c]) as [[a b] d]. exact H.
+  - pose proof (ingest_char_rv cl c) as H. destruct (ingest_char cl c) as [a b]. exact H.
+Qed.
+
+Lemma rv_final_not_eagain rv : rv_final rv -> (rv =? NNG_EAGAIN) = false.
+Proof. intros [-> | [-> | [-> | ->]]]; reflexivity. Qed.
+
+(* ---- the parse loop over a concatenation ---- *)
+Lemma chunks_loop_app : forall a cl b used,
+  chunks_loop cl (a ++ b) used =
+    let '(cl1, rv, u1) := chunks_loop cl a used in
+    if rv =? NNG_EAGAIN then chunks_loop cl1 b u1 else (cl1, rv, u1).
+Proof.
+  induction a as [|c a IH]; intros cl b used.
+  - cbn [app chunks_loop]. destruct (is_done cl) eqn:D.
+    + destruct b; cbn [chunks_loop]; rewrite D; reflexivity.
+    + cbn. reflexivity.
+  - cbn [app chunks_loop]. destruct (is_done cl) eqn:D; [reflexivity|].
+    pose proof (cstep_rv cl c) as R.
+    destruct (cstep cl c) as [[cl' rv] counted]. cbn [fst snd] in R.
+    destruct (rv =? 0) eqn:Z.
+    + apply IH.
+    + rewrite (rv_final_not_eagain rv R). reflexivity.
+Qed.
+
+Lemma chunks_loop_shift : forall buf cl used,
+  chunks_loop cl buf used = let '(c, r, n) := chunks_loop cl buf 0%nat in (c, r, (used + n)%nat).
+Proof.
+  induction buf as [|c buf IH]; intros cl used; cbn [chunks_loop].
+  - destruct (is_done cl); rewrite Nat.add_0_r; reflexivity.
+  - destruct (is_done cl); [rewrite Nat.add_0_r; reflexivity|].
+    destruct (cstep cl c) as [[cl' rv] counted].
+    destruct (rv =? 0).
+    + rewrite (IH cl' (S used)), (IH cl' 1%nat).
+      destruct (chunks_loop cl' buf 0) as [[c0 r0] n0]. f_equal. lia.
+    + destruct counted; f_equal; lia.
+Qed.
+
+Lemma chunks_loop_used : forall buf cl used c r n,
+  chunks_loop cl buf used = (c, r, n) ->
+  (used <= n <= used + length buf)%nat /\ (r = NNG_EAGAIN -> n = (used + length buf)%nat /\ is_done c = false).
+Proof.
+  induction buf as [|x buf IH]; intros cl used c r n H; cbn [chunks_loop] in H.
+  - destruct (is_done cl) eqn:D; inversion H; subst; cbn [length]; split; try lia.
+    + discriminate.
+    + intros _. split; [lia|exact D].
+  - destruct (is_done cl) eqn:D.
+    { inversion H; subst. cbn [length]. split; [lia|discriminate]. }
+    pose proof (cstep_rv cl x) as R.
+    destruct (cstep cl x) as [[cl' rv] counted]. cbn [fst snd] in R.
+    destruct (rv =? 0) eqn:Z.
+    + destruct (IH _ _ _ _ _ H) as [A B]. cbn [length]. split; [lia|].
+      intros E. destruct (B E). split; [lia|assumption].
+    + inversion H; subst. cbn [length]. split; [destruct counted; lia|].
+      intros E. rewrite E in R. destruct R as [R|[R|[R|R]]]; discriminate.
+Qed.
+
+(* restartability of the stream decoder (DESIGN appendix A.3) *)
+Lemma chunk_feed_app st a b :
+  chunk_feed st (a ++ b) =
+    let '(s1, e1) := chunk_feed st a in let '(s2, e2) := chunk_feed s1 b in (s2, e1 ++ e2).
+Proof.
+  unfold chunk_feed at 1 2. destruct (f_status st) eqn:S.
+  - unfold chunks_parse. rewrite chunks_loop_app.
+    destruct (chunks_loop (f_cl st) a 0) as [[cl1 rv] u1] eqn:LA.
+    destruct (chunks_loop_used _ _ _ _ _ _ LA) as [Hu He].
+    destruct (rv =? NNG_EAGAIN) eqn:E.
+    + apply N.eqb_eq in E. destruct (He E) as [Hn _]. cbn [Nat.add] in Hn.
+      unfold chunk_feed. cbn [f_status f_cl]. unfold chunks_parse.
+      rewrite (chunks_loop_shift b cl1 u1).
+      destruct (chunks_loop cl1 b 0) as [[c2 r2] n2].
+      destruct (r2 =? NNG_EAGAIN); [reflexivity|].
+      destruct (r2 =? 0); [|reflexivity].
+      rewrite Hn. rewrite skipn_app_ge by lia. replace (length a + n2 - length a)%nat with n2 by lia. reflexivity.
+    + destruct (rv =? 0) eqn:Z.
+      * unfold chunk_feed. cbn [f_status f_cl f_left]. rewrite ?E, ?Z.
+        rewrite skipn_app. replace (u1 - length a)%nat with 0%nat by lia. cbn [skipn]. rewrite app_nil_r. reflexivity.
+      * unfold chunk_feed. cbn [f_status]. rewrite ?E, ?Z. reflexivity.
+  - unfold chunk_feed. cbn [f_status f_cl f_left]. rewrite app_assoc. reflexivity.
+  - unfold chunk_feed. rewrite S. reflexivity.
+Qed.
+
+(* ---- chunk size: hex value, no wrap ---- *)
+Lemma hex_digit_classes c d : hex_digit c = Some d ->
+  (is_digit c = true /\ d = c - 48) \/ (is_digit c = false /\ is_upper_hex c = true /\ d = c - 65 + 10) \/
+  (is_digit c = false /\ is_upper_hex c = false /\ is_lower_hex c = true /\ d = c - 97 + 10).
+Proof.
+  unfold hex_digit, is_digit, is_upper_hex, is_lower_hex.
+  destruct ((48 <=? c) && (c <=? 57)) eqn:A.
+  - intros H; inversion H. left. auto.
+  - destruct ((65 <=? c) && (c <=? 70)) eqn:B.
+    + intros H; inversion H. right; left. repeat split; auto.
+      apply andb_true_iff in B. destruct B as [B1 B2]. apply N.leb_le in B1. lia.
+    + destruct ((97 <=? c) && (c <=? 102)) eqn:C; [|discriminate].
+      intros H; inversion H. right; right. repeat split; auto.
+      apply andb_true_iff in C. destruct C as [C1 C2]. apply N.leb_le in C1. lia.
+Qed.
+
+Lemma ingest_len_digit cl c d : hex_digit c = Some d -> d < 16 ->
+  if SIZE_MAX <? cl_size cl * 16 + d
+  then ingest_len cl c = (cl, NNG_EMSGSIZE)
+  else exists cl', ingest_len cl c = (cl', 0) /\ cl_size cl' = cl_size cl * 16 + d /\
+                   cl_total cl' = cl_total cl /\ cl_maxsz cl' = cl_maxsz cl /\ cl_state cl' = cl_state cl.
+Proof.
+  intros H Hd.
+  assert (K: ingest_len cl c =
+             if (SIZE_MAX - d) / 16 <? cl_size cl then (cl, NNG_EMSGSIZE)
+             else (mkChunks (cl_chunks cl) (cl_maxsz cl) (cl_total cl)
+                     ((cl_size cl * 16 + d) mod (SIZE_MAX + 1)) (cl_line cl) (cl_state cl) (cl_allocmax cl), 0)).
+  { unfold ingest_len. destruct (hex_digit_classes c d H) as [(A & ->) | [(A & B & ->) | (A & B & C & ->)]];
+      rewrite ?A, ?B, ?C; reflexivity. }
+  rewrite K. unfold SIZE_MAX in *.
+  destruct (18446744073709551615 <? cl_size cl * 16 + d) eqn:E.
+  - apply N.ltb_lt in E.
+    replace ((18446744073709551615 - d) / 16 <? cl_size cl) with true; [reflexivity|].
+    symmetry. apply N.ltb_lt.
+    lia.
+  - apply N.ltb_ge in E.
+    replace ((18446744073709551615 - d) / 16 <? cl_size cl) with false.
+    + eexists. split; [reflexivity|]. cbn. repeat split. apply N.mod_small. lia.
+    + symmetry. apply N.ltb_ge. lia.
+Qed.
+
+(* a new chunk is admitted only within the limits, and the total does not wrap *)
+Lemma ingest_newline_limits cl cl' : ingest_newline cl 10 = (cl', 0) -> cl_size cl <> 0 ->
+  cl_total cl' = cl_total cl + cl_size cl /\ cl_total cl + cl_size cl <= SIZE_MAX /\ cl_size cl + 2 <= SIZE_MAX /\
+  (0 < cl_maxsz cl -> cl_total cl' <= cl_maxsz cl) /\ cl_maxsz cl' = cl_maxsz cl /\ cl_state cl' = CS_DATA.
+Proof.
+  unfold ingest_newline. cbn [N.eqb Pos.eqb negb]. intros H Hz.
+  replace (cl_size cl =? 0) with false in H by (symmetry; apply N.eqb_neq; exact Hz).
+  destruct ((SIZE_MAX - 2 <? cl_size cl) || (SIZE_MAX - cl_total cl <? cl_size cl) ||
+            ((0 <? cl_maxsz cl) && ((cl_maxsz cl <? cl_total cl) || (cl_maxsz cl - cl_total cl <? cl_size cl)))) eqn:G;
+    [discriminate|].
+  destruct (cl_allocmax cl <? cl_size cl + 2); [discriminate|].
+  inversion H; subst; clear H. cbn [cl_total cl_maxsz cl_state].
+  apply orb_false_iff in G. destruct G as [G G3]. apply orb_false_iff in G. destruct G as [G1 G2].
+  apply N.ltb_ge in G1, G2. unfold SIZE_MAX in *.
+  assert (W: cl_total cl + cl_size cl <= 18446744073709551615) by lia.
+  rewrite N.mod_small by lia.
+  repeat split; try lia.
+  intros Hm. apply N.ltb_lt in Hm. rewrite Hm in G3. cbn [andb] in G3.
+  apply orb_false_iff in G3. destruct G3 as [G4 G5]. apply N.ltb_ge in G4, G5. lia.
+Qed.
+
+(* the total of the admitted chunks never exceeds the configured maximum *)
+Definition total_ok (cl : chunks) : Prop := cl_maxsz cl = 0 \/ cl_total cl <= cl_maxsz cl.
+
+Lemma ingest_char_total cl c cl' rv : ingest_char cl c = (cl', rv) -> total_ok cl ->
+  total_ok cl' /\ cl_maxsz cl' = cl_maxsz cl.
+Proof.
+  unfold total_ok. intros H T.
+  destruct (cl_state cl) eqn:S; unfold ingest_char in H; rewrite S in H.
+  all: try (inversion H; subst; auto; fail).
+  - unfold ingest_len in H. revert H. split_ifs; intros H; inversion H; subst; cbn; auto.
+  - unfold ingest_len in H. revert H. split_ifs; intros H; inversion H; subst; cbn; auto.
+  - unfold ingest_ext in H. revert H. split_ifs; intros H; inversion H; subst; cbn; auto.
+  - destruct (negb (c =? 10)) eqn:C.
+    + unfold ingest_newline in H. rewrite C in H. inversion H; subst; auto.
+    + apply negb_false_iff, N.eqb_eq in C. subst c.
+      destruct (cl_size cl =? 0) eqn:Z.
+      * unfold ingest_newline in H. cbn [N.eqb Pos.eqb negb] in H. rewrite Z in H. inversion H; subst; cbn; auto.
+      * destruct (rv =? 0) eqn:R.
+        -- apply N.eqb_eq in R. subst rv. apply N.eqb_neq in Z.
+           destruct (ingest_newline_limits cl cl' H Z) as (A & B & C & D & E & F).
+           rewrite E. split; [|reflexivity].
+           destruct (N.eq_dec (cl_maxsz cl) 0); [left; assumption|right; apply D; lia].
+        -- unfold ingest_newline in H. cbn [N.eqb Pos.eqb negb] in H. rewrite Z in H.
+           revert H. split_ifs; intros H; inversion H; subst; auto. discriminate.
+  - unfold ingest_trailer in H. revert H. split_ifs; intros H; inversion H; subst; cbn; auto.
+  - unfold ingest_trailercr in H. revert H. split_ifs; intros H; inversion H; subst; cbn; auto.
+Qed.
+
+Lemma ingest_data_total cl buf cl' rv k : ingest_data cl buf = (cl', rv, k) -> total_ok cl ->
+  total_ok cl' /\ cl_maxsz cl' = cl_maxsz cl.
+Proof.
+  unfold total_ok, ingest_data. destruct (rev (cl_chunks cl)).
+  - intros H; inversion H; subst; auto.
+  - split_ifs; intros H; inversion H; subst; cbn; auto.
+Qed.
+
+Lemma chunks_loop_total : forall buf cl used c r n,
+  chunks_loop cl buf used = (c, r, n) -> total_ok cl -> total_ok c.
+Proof.
+  induction buf as [|x buf IH]; intros cl used c r n H T; cbn [chunks_loop] in H.
+  - destruct (is_done cl); inversion H; subst; exact T.
+  - destruct (is_done cl); [inversion H; subst; exact T|].
+    unfold cstep in H. destruct (is_data cl).
+    + destruct (ingest_data cl [x]) as [[cl' rv] k] eqn:D.
+      destruct (ingest_data_total _ _ _ _ _ D T) as [T' _].
+      destruct (rv =? 0); [eapply IH; eauto|inversion H; subst; exact T'].
+    + destruct (ingest_char cl x) as [cl' rv] eqn:D.
+      destruct (ingest_char_total _ _ _ _ D T) as [T' _].
+      destruct (rv =? 0); [eapply IH; eauto|inversion H; subst; exact T'].
+Qed.
